@@ -448,6 +448,7 @@ class Tie:
                 self.disagreements.append({"kind": kind, "payload": payload, "why": why, "real": real, "model": out})
             # routine failing-input search on a sample, and always on a disagreement
             if hasattr(prop, "oracle") and (why or idx < n_corpus or getattr(prop, "ORACLE_EVERY", False)
+                                            or (isinstance(payload, dict) and payload.get("always_oracle"))
                                             or idx % max(1, len(kept) // osample) == 0):
                 self.oracle_evals += 1
                 msg = call_oracle(prop, kind, payload)
